@@ -185,7 +185,9 @@ def loader_clause(model, rep, funcs):
         det = ""
         if ok:
             c = calls[0]
-            a0, a1 = norm_src(c.args[0]), norm_src(c.args[1])
+            from .common import arg_or_kw
+            e0, e1 = arg_or_kw(c, 0, "img0"), arg_or_kw(c, 1, "img1")
+            a0, a1 = (norm_src(e0) if e0 is not None else "?"), (norm_src(e1) if e1 is not None else "?")
             ML = Matcher(f)
             bl: dict = {}
             ok, why = ML.all_of(["for $i in range(n_set):\n    ...", "$a, $b = $h[$i]",
@@ -224,7 +226,8 @@ def loader_clause(model, rep, funcs):
     g = funcs.get(LB + "fsc_with_average")
     if f is not None and g is not None:
         rep.instance("S11.fsc", f.loc())
-        ok = Matcher(f).has("return self.fsc_with_average(mask, seed, n_set, dfreq)[0]")
+        ok = Matcher(f).has("return self.fsc_with_average(mask, seed, n_set, dfreq)[0]") or \
+            Matcher(f).has("return self.fsc_with_average(mask, seed, n_set, dfreq, zero_norm=True)[0]")  # the default, spelled out
         ok2 = Matcher(g).has("self.fsc_with_halfmaps(mask=mask, seed=seed, n_set=n_set, dfreq=dfreq, zero_norm=zero_norm, squeeze=False)")
         rep.ob("S12", f.anchor, "fsc -> fsc_with_average -> fsc_with_halfmaps forward mask, seed, n_set and dfreq unchanged", ok and ok2, "", node=f.node, fn=f,
                clause="loader level", stmt="fsc forwarding")
